@@ -80,6 +80,11 @@ func snapStates(r app.IProject) ([]StateLite, error) {
 
 // tokenOf extracts "<kind> <token>" from a command line built by the real launcher.
 func tokenOf(args []string) (kind, token string) {
+	// "simprocB" is a second executable that behaves like "simproc" (C14: an update that
+	// changes nothing but the executable)
+	if len(args) >= 2 && args[0] == "simprocB" {
+		return "simproc", args[1]
+	}
 	for _, a := range args {
 		for _, k := range []string{"simproc", "simprobe", "simstop", "simenv"} {
 			if i := strings.Index(a, k+" "); i >= 0 {
